@@ -146,7 +146,8 @@ def report(chk, clause, text, got, want, how):
 def random_list(rnd):
     words = ["Knuth", "Donald", "E.", "de", "la", "van", "{and}", "{Simon and Schuster}", "Andersen", "Sand", "and", "AND", "\\'Etienne",
              "{\\'E}douard", "J.~R.", "d'Alembert", "Land,", "Jr,", "andy", "Brand", "\\and", "an", "d", "{", "}", "\\", "x~and~y", "\\ ",
-             "Strauß,", "İnan", "ﬁscher", "Großmann", "ａｎｄ", "ſand", "and\u00a0", "\u2003and"]
+             "Strauß,", "İnan", "ﬁscher", "Großmann", "ａｎｄ", "ſand", "and\u00a0", "\u2003and",
+             "{Ernst \\} and Young}", "{AT\\{T and Labs}", "{a \\{ and \\} b}", "and{Lamport, L.}", "{x}and", "{Simon\nand\tSchuster}"]
     names = []
     for _ in range(rnd.randint(1, 60)):
         names.append(rnd.choice([" ", "\t", "\n", "  "]).join(rnd.choice(words) for _ in range(rnd.randint(1, 4))))
